@@ -18,7 +18,7 @@ SPEC = {
     "assumptions": [
         "that a real operation reads shared state only through its Transaction is a fact about the code, tested by this campaign, not proved",
     ],
-    "rule": "straight-line programs of 2..5 transactional operations (link/unlink/sew/unsew 1-2, id and orbit queries, vertex/attribute "
+    "rule": "(2-D stream; the 3-D, kernel and remeshing streams are described in their own stats) straight-line programs of 2..5 transactional operations (link/unlink/sew/unsew 1-2, id and orbit queries, vertex/attribute "
             "reads and writes, remove_free_dart_transac) on every kind of small WF 2-map, later operations reusing the darts of earlier ones; "
             "each program is run in sequence and in one block from the same initial state; oracle (implementation only): if every operation "
             "succeeds in sequence, the block returns the same per-operation results and the same full snapshot. "
@@ -253,6 +253,57 @@ def kernel_programs(count, rng, mask=0):
     return cases
 
 
+def programs3(count, rng):
+    """3-D stream (CMap3): straight-line programs of link/unlink/sew/unsew of dimensions 1, 2, 3 and id/orbit queries on maps
+    built from free darts and from the glued-faces family, biased so that later operations depend on the images written by the
+    earlier ones of the SAME program (a 1-link of two darts that were 3-linked just before, a 3-sew of faces 1-linked just
+    before, ...).  Same layout and two-directional oracle as `kernel_programs`."""
+    cases = []
+    fam = [x for x in gens.faces3_maps(2, 3)]
+    for c in range(count):
+        mask = rng.choice([31, 13, 5, 0, 1])
+        if rng.random() < 0.5:
+            n = rng.randint(3, 6)
+            init = [f"new 3 {n} {mask}"]
+        else:
+            n, rows, _ = rng.choice(fam)
+            extra = rng.randint(0, 2)
+            init = [gens.load_line(3, n + extra, mask, [r + [0] * extra for r in rows], [0] * (n + extra + 1))]
+            n += extra
+        init += gens.value_lines(rng, n, mask, dim=3, pv=rng.choice([1.0, 0.7]), pa=rng.choice([1.0, 0.5, 0.0]))
+        darts = list(range(1, n + 1))
+        ops = []
+        touched = []
+        for _ in range(rng.randint(2, 5)):
+            pool = touched + touched + darts if touched else darts
+            l, r = rng.choice(pool), rng.choice(pool)
+            k = rng.random()
+            if k < 0.22:
+                op = f"{rng.choice(['link', 'sew'])} 3 {l} {r}" if l != r else f"unlink 3 {l}"
+            elif k < 0.44:
+                op = f"{rng.choice(['link', 'sew'])} 1 {l} {r}"
+            elif k < 0.58:
+                op = f"{rng.choice(['link', 'sew'])} 2 {l} {r}" if l != r else f"unlink 2 {l}"
+            elif k < 0.80:
+                op = f"{rng.choice(['unlink', 'unsew'])} {rng.choice([1, 2, 3])} {l}"
+            elif k < 0.9:
+                op = rng.choice([f"vid {l}", f"eid {l}", f"fid {l}", f"volid {l}"])
+            else:
+                op = f"orbit {rng.choice(['v', 'e', 'f', 'vol', 'c3', 'c10'])} {l}"
+            touched += [l, r]
+            ops.append(op)
+        lines = init + ["snap"] + ops + ["snap"] + init + ["tx"] + ops + ["endtx", "snap"]
+        cases.append(Case(f"q{c}", lines, oracle="c08k", meta={"sig": "program-3d", "k": len(ops), "ninit": len(init)}))
+    # directed: both darts of a 1-link got their 3-images earlier in the same program (the mirrored 1-link must happen)
+    for name, n, ops in (("q3a", 4, ["link 3 1 3", "link 3 2 4", "link 1 1 2"]),
+                         ("q3b", 4, ["link 3 1 3", "link 3 2 4", "sew 1 1 2", "unlink 1 1"]),
+                         ("q3c", 6, ["link 1 1 2", "link 1 2 3", "link 1 4 5", "link 1 5 6", "sew 3 2 5", "unsew 3 1"])):
+        init = [f"new 3 {n} 1"] + [f"wv {d} {d} 0 0" for d in range(1, n + 1)]
+        lines = init + ["snap"] + ops + ["snap"] + init + ["tx"] + ops + ["endtx", "snap"]
+        cases.append(Case(name, lines, oracle="c08k", meta={"sig": "program-3d", "k": len(ops), "ninit": len(init)}))
+    return cases
+
+
 def remesh_programs(count, rng):
     """separate stream (C15 kernels): programs of swap / cut / collapse mixed with core operations on small split grids (with and
     without anchors), run as a sequence of single transactions and as one block; same layout and oracle as `kernel_programs`"""
@@ -297,7 +348,9 @@ def run(tier, seed):
     rk = hv.campaign(kernel_programs(4000 if tier == "quick" else 40000, rng), oracle_c08k, max_report=30)
     rk["violations"] = dedupe_k(rk["violations"])
     rr = hv.campaign(remesh_programs(1500 if tier == "quick" else 20000, rng), oracle_c08k, max_report=30)
+    r3 = hv.campaign(programs3(8000 if tier == "quick" else 120000, rng), oracle_c08k, max_report=30)
     res = hv.merge_results([("random straight-line programs, sequence vs one block", r),
+                            ("3-D programs (CMap3: links/sews of dimensions 1-3 depending on images written earlier in the program)", r3),
                             ("kernels with non-transactional reads after edits of their spare darts (scan_tx hit list)", rk),
                             ("remeshing kernels (swap / cut / collapse) composed with core operations", rr)])
     res["stats"]["all_ok_programs"] = N_ALLOK[0]
